@@ -53,7 +53,18 @@ stated bounds (W05-2: 1024 lost races), changes that alter the signature of a fu
 harness of the property stubs (C04-2: exit 2, undecided), weakened memory orderings that stay
 above the minimum the trace contracts pin, and anything in the std `LocalNode::with`.
 
-WAVE3TEXT
+Wave 3 (8 agents, one change each; ids X<nn>-1; the agents for C01 and C04 independently produced
+the same idea). Reading the descriptions before evaluating, I judged four could not be seen by the
+checks as they stood and strengthened them first (X01/X04: no contract stated the slot frame of
+`LocalNode::drop`; X14: the empty-value guard had no paid / paid-and-reused pre-state; X08: the
+deciding obligation existed but not in C08's set); X16 and X17 were caught by the checks as they
+stood; X20 was MISSED on the first pass (the serde contracts only looked at quiescent states) and is
+caught after `c20_serialize_protected` was added; X06 (rcu drops its guard before the exchange and
+passes a raw address – an address-reuse hazard; its own author reports that the existing rcu test
+fails in ~1% of suite runs with it, so it only just meets the 'passes the existing tests' bar):
+see its row. Lesson of this wave: *frames* (what a function must leave alone – the slots at
+thread exit, a reused slot at guard drop) and *protection during a user callback* (serialize) were
+the blind spots; each is now a named obligation.
 <!-- /TABLES -->""" % (cost, seeds, totals)
 p = os.path.join(HERE, "DESIGN.md")
 s = open(p).read()
